@@ -508,10 +508,11 @@ def show(e, top: bool = True) -> str:  # noqa: PLR0911, PLR0912
         inner = e[2]
         body = show(inner, False)
         return f"#{e[1]} = {body}"
-    if k == "and":
-        return "&" + show(e[1], False)
-    if k == "not":
-        return "!" + show(e[1], False)
+    if k in ("and", "not"):
+        op = "&" if k == "and" else "!"
+        if e[1][0] == "tag":  # a tag must precede the prefix operators of its term
+            return op + "(" + show(e[1], True) + ")"
+        return op + show(e[1], False)
     if k == "push":
         return f"PUSH({show(e[1])})"
     if k == "pushlit":
